@@ -169,6 +169,13 @@ def wl_forged(ctx, config):
         for j in range(nk):
             if j == idx: continue
             t = bytearray(sb); t[33 + 32 * j:65 + 32 * j] = b32(forged[j] + n); vcase(ctx, config, K, bytes(t), "refprover:s+n")
+        # a chain value R_j = s_j G + e_j K_j forced to the point at infinity (all ring secrets are known here): must be rejected cleanly
+        from ref import borromean
+        km = whitelist.keys_and_msg(K.on, K.off, K.W)
+        if km is not None:
+            j = rng.randrange(nk); sc = [[I(sb[33 + 32 * t:65 + 32 * t]) for t in range(nk)]]
+            cs = borromean.craft_infinity(sb[1:33], sc, [km[0]], [[K.ring_secret(t) for t in range(nk)]], [nk], km[1], 0, j)
+            if cs is not None: vcase(ctx, config, K, bytes([nk]) + sb[1:33] + b''.join(b32(x) for x in cs[0]), "crafted:chain_point_infinity")
         # a prover who does not know the secret: all scalars chosen, ring does not close
         junk = bytes([nk]) + pools.rbytes(rng, 32) + b''.join(b32(rng.randrange(1, n)) for _ in range(nk)); vcase(ctx, config, K, junk, "no_secret:random_ring", nontrivial=False)
 
